@@ -18,6 +18,8 @@ def zstd_files(rnd):
             chunks = [d] + [corpus.text(rnd, n) for n in (90, 40, 120)]
             buf, stored = ref.build_file(chunks, comp_type=2, hash_type=1, chunk_hash_type=1 if flags else 3, flags=flags, level=3)
             out.append(("z-d%d-f%d" % (int(dic), flags), buf, chunks))
+    chunks = [b""] + [corpus.text(rnd, n) for n in (90, 40, 120)]
+    out.append(("z-padded", ref.build_file(chunks, comp_type=2, hash_type=1, chunk_hash_type=3, level=3, pad=9)[0], chunks))
     return out
 
 
